@@ -107,6 +107,16 @@ PySlice(d, i, j) ==
       hi == Max2(lo, hi0) sc == Scans(d) IN
   Diag(sc[lo + 1], sc[hi + 1], Slice(d.boxes, lo, hi), Slice(d.offs, lo, hi))
 
+\* d[i:j:-1] : python's reversed slice selects the boxes  stop < k <= start  (0-based, after normalising the bounds);
+\* its value is the dagger of the forward sub-diagram they form; an empty selection is the identity on the wires open
+\* just after the (normalised) start
+RevBound(i, n, dflt) == IF i = None THEN dflt
+                        ELSE LET a == IF i < 0 THEN i + n ELSE i IN IF a < 0 THEN 0 - 1 ELSE IF a >= n THEN n - 1 ELSE a
+PyRSlice(d, i, j) ==
+  LET n == Len(d.boxes) st == RevBound(i, n, n - 1) sp == RevBound(j, n, 0 - 1) IN
+  IF st <= sp THEN IdD(Scans(d)[Min2(Max2(st + 1, 0), n) + 1])
+  ELSE Dagger(PySlice(d, sp + 1, st + 1))
+
 (***************************************************************************)
 (* Interchange (C05).  Boxes p, p+1 (1-based) can be exchanged when the    *)
 (* lower one lies entirely to one side of the upper one:                   *)
